@@ -55,7 +55,17 @@ func RunC14(tier string) int {
 				if len(t.AllOuts()) > 0 {
 					t.OmitIf = "markers/omit_" + t.MID()
 					t.Dangle = r.Chance(1, 2) // a dangling symlink at the path instead of nothing
-					if outs := t.AllOuts(); len(outs) >= 2 && r.Chance(1, 2) {
+					if r.Chance(1, 3) && !t.HasTag("no-cache") {
+						// an uncached target: its outputs are only hashed, never stored - they must
+						// exist all the same
+						t.Tags = append(t.Tags, "no-cache")
+						for _, o := range t.AllOuts() {
+							if o.Kind == "dir" {
+								t.Omit = o.Path // the directory output is the one that goes missing
+							}
+						}
+					}
+					if outs := t.AllOuts(); len(outs) >= 2 && r.Chance(1, 2) && t.Omit == "" {
 						// only one of the declared outputs goes missing
 						t.Omit = outs[r.Intn(len(outs))].Path
 					}
@@ -63,6 +73,12 @@ func RunC14(tier string) int {
 			case 4:
 				t.SleepIf = "markers/slow_" + t.MID()
 				t.Timeout = "3s"
+				if r.Chance(1, 2) {
+					// an overrun of a few hundred milliseconds: the command would exit 0 on its own
+					// shortly after the deadline
+					t.Timeout = "2s"
+					t.SleepIfMs = r.Range(2300, 2700)
+				}
 				// how the target's shell takes the signal that ends an overrun command: killed
 				// outright, exits 0 on TERM (graceful shutdown), or ignores TERM
 				switch r.Intn(3) {
